@@ -88,6 +88,10 @@ pub struct Lent {
     pub socks: Vec<UnixStream>,
     pub idents: Vec<Ident>,
     pub raw: Vec<RawFd>,
+    /// identity of descriptors given away by value (the library owns and closes them)
+    pub given: Vec<Ident>,
+    /// selects the kind of descriptor created for memory regions (0 = memfd only)
+    pub kinds: u64,
 }
 
 impl Lent {
@@ -119,6 +123,34 @@ impl Outcome {
         "vals" => self.vals.iter().map(|v| J::x64(*v)).collect::<Vec<J>>(),
         "bytes" => J::hex(&self.bytes), "file" => self.file.is_some()}
     }
+}
+
+/// Create one descriptor per region; `Lent::kinds` selects the descriptor kind.
+fn mk_regions(regs: &[Region], lent: &mut Lent) -> Vec<VhostUserMemoryRegionInfo> {
+    regs.iter()
+        .enumerate()
+        .map(|(i, r)| {
+            let sel = if lent.kinds == 0 { 0 } else { lent.kinds.wrapping_add(i as u64) % 4 };
+            let f = match sel {
+                1 => File::open("/dev/null").expect("/dev/null"),
+                2 => {
+                    let (a, b) = sys::pair();
+                    lent.socks.push(b);
+                    unsafe { File::from_raw_fd(std::os::fd::IntoRawFd::into_raw_fd(a)) }
+                }
+                3 => sys::eventfd_file(0),
+                _ => sys::memfd("reg", 4096),
+            };
+            let fd = lent.push_file(f);
+            VhostUserMemoryRegionInfo {
+                guest_phys_addr: r.gpa,
+                memory_size: r.size,
+                userspace_addr: r.uaddr,
+                mmap_offset: r.off,
+                mmap_handle: fd,
+            }
+        })
+        .collect()
 }
 
 fn ok<T, E: std::fmt::Debug>(r: Result<T, E>, f: impl FnOnce(T, &mut Outcome)) -> Outcome {
@@ -328,29 +360,19 @@ impl FeOp {
         }
     }
 
-    /// Execute against the real endpoint. Descriptors are created here and lent to the call.
-    pub fn exec(&self, f: &mut Frontend, lent: &mut Lent) -> Outcome {
-        let mk_regions = |regs: &[Region], lent: &mut Lent| -> Vec<VhostUserMemoryRegionInfo> {
-            regs.iter()
-                .map(|r| {
-                    let fd = lent.push_file(sys::memfd("reg", 4096));
-                    VhostUserMemoryRegionInfo {
-                        guest_phys_addr: r.gpa,
-                        memory_size: r.size,
-                        userspace_addr: r.uaddr,
-                        mmap_offset: r.off,
-                        mmap_handle: fd,
-                    }
-                })
-                .collect()
-        };
+    /// The `VhostBackend` subset of the API, generic so that it can be driven through the
+    /// library's `RwLock<T>` / `RefCell<T>` adapters as well. None = not a VhostBackend operation.
+    pub fn exec_vb<B: VhostBackend>(&self, f: &B, lent: &mut Lent) -> Option<Outcome> {
         let evfd = |lent: &mut Lent| -> EventFd {
             let e = EventFd::new(libc::EFD_NONBLOCK).expect("eventfd");
             lent.idents.push(sys::ident(e.as_raw_fd()).expect("ident"));
             lent.raw.push(e.as_raw_fd());
             e
         };
-        match self {
+        let keep = |e: EventFd, lent: &mut Lent| {
+            lent.files.push(unsafe { File::from_raw_fd(std::os::fd::IntoRawFd::into_raw_fd(e)) });
+        };
+        Some(match self {
             FeOp::GetFeatures => ok(f.get_features(), |v, o| o.vals.push(v)),
             FeOp::SetFeatures(v) => ok(f.set_features(*v), |_, _| ()),
             FeOp::SetOwner => ok(f.set_owner(), |_, _| ()),
@@ -388,21 +410,31 @@ impl FeOp {
             FeOp::SetVringCall(i) => {
                 let e = evfd(lent);
                 let r = ok(f.set_vring_call(*i, &e), |_, _| ());
-                lent.files.push(unsafe { File::from_raw_fd(std::os::fd::IntoRawFd::into_raw_fd(e)) });
+                keep(e, lent);
                 r
             }
             FeOp::SetVringKick(i) => {
                 let e = evfd(lent);
                 let r = ok(f.set_vring_kick(*i, &e), |_, _| ());
-                lent.files.push(unsafe { File::from_raw_fd(std::os::fd::IntoRawFd::into_raw_fd(e)) });
+                keep(e, lent);
                 r
             }
             FeOp::SetVringErr(i) => {
                 let e = evfd(lent);
                 let r = ok(f.set_vring_err(*i, &e), |_, _| ());
-                lent.files.push(unsafe { File::from_raw_fd(std::os::fd::IntoRawFd::into_raw_fd(e)) });
+                keep(e, lent);
                 r
             }
+            _ => return None,
+        })
+    }
+
+    /// Execute against the real endpoint. Descriptors are created here and lent to the call.
+    pub fn exec(&self, f: &mut Frontend, lent: &mut Lent) -> Outcome {
+        if let Some(o) = self.exec_vb(&*f, lent) {
+            return o;
+        }
+        match self {
             FeOp::GetProtocolFeatures => ok(f.get_protocol_features(), |v, o| o.vals.push(v.bits())),
             FeOp::SetProtocolFeatures(v) => {
                 ok(f.set_protocol_features(VhostUserProtocolFeatures::from_bits_retain(*v)), |_, _| ())
@@ -464,7 +496,7 @@ impl FeOp {
                 let dir = if *d == 0 { VhostTransferStateDirection::SAVE } else { VhostTransferStateDirection::LOAD };
                 let _ = p;
                 let file = sys::memfd("state", 4096);
-                lent.idents.push(sys::ident(file.as_raw_fd()).expect("ident"));
+                lent.given.push(sys::ident(file.as_raw_fd()).expect("ident"));
                 let owned: OwnedFd = file.into();
                 ok(f.set_device_state_fd(dir, VhostTransferStatePhase::STOPPED, owned), |file, o| o.file = file)
             }
@@ -472,6 +504,7 @@ impl FeOp {
             FeOp::PostcopyAdvise => ok(f.postcopy_advise(), |file, o| o.file = Some(file)),
             FeOp::PostcopyListen => ok(f.postcopy_listen(), |_, _| ()),
             FeOp::PostcopyEnd => ok(f.postcopy_end(), |_, _| ()),
+            _ => unreachable!(),
         }
     }
 
